@@ -1,7 +1,9 @@
-(** Proofs about model/PackUri.v.  The statements below are fixed; each one is
-    re-stated in props/C19.v and closed there by [exact <this lemma>]. *)
+(** Proofs about model/PackUri.v.  The statements of the main lemmas (those listed in
+    props/C19.v) are fixed; each one is re-stated in props/C19.v and closed there by
+    [exact <this lemma>].  Everything else in this file is auxiliary. *)
 From V.lib Require Import Prelude.
 From V.model Require Import PackUri.
+From V.proofs Require Import Prelude_proofs.
 
 Definition no_dot (s : str) : bool := forallb (fun c => negb (is_dot c)) s.
 
@@ -21,39 +23,332 @@ Definition ref_ok (ref : str) : bool :=
       end
   end.
 
-(* ---- statements to be proved (replace each Abort by a proof ending in Qed) ---- *)
+(* ---- auxiliary lemmas ---- *)
+
+Lemma wf_segb_inv s : wf_segb s = true ->
+  s <> [] /\ nfree c_slash s = true /\ str_eqb s s_dot = false /\ str_eqb s s_dotdot = false.
+Proof.
+  unfold wf_segb. intros H.
+  apply andb_true_iff in H as [H H4]. apply andb_true_iff in H as [H H3].
+  apply andb_true_iff in H as [H1 H2].
+  apply negb_true_iff in H3, H4.
+  repeat split; auto. destruct s; [discriminate | discriminate].
+Qed.
+
+Lemma wf_name_nfree D : wf_name D -> Forall (fun s => nfree c_slash s = true) D.
+Proof. intros H. eapply Forall_impl; [|exact H]. intros s Hs. apply wf_segb_inv in Hs. tauto. Qed.
+
+Lemma wf_name_nonempty D : wf_name D -> Forall (fun s => s <> []) D.
+Proof. intros H. eapply Forall_impl; [|exact H]. intros s Hs. apply wf_segb_inv in Hs. tauto. Qed.
+
+Lemma seg_hd s : s <> [] -> nfree c_slash s = true -> exists x r, s = x :: r /\ is_slash x = false.
+Proof.
+  destruct s as [|x r]; [congruence|]. intros _ H. simpl in H.
+  apply andb_true_iff in H as [H _]. apply negb_true_iff in H. exists x, r; auto.
+Qed.
+
+Definition last_ns (a : str) : bool :=
+  match rev a with y :: _ => negb (is_slash y) | [] => false end.
+
+Lemma last_ns_app a b : b <> [] -> last_ns (a ++ b) = last_ns b.
+Proof.
+  intros H. unfold last_ns. rewrite rev_app_distr.
+  destruct (rev_cons_exists b H) as [r [y ->]]. rewrite rev_unit. reflexivity.
+Qed.
+
+Lemma last_ns_nonnil a : last_ns a = true -> a <> [].
+Proof. intros H ->. discriminate. Qed.
+
+Lemma last_ns_seg s : s <> [] -> nfree c_slash s = true -> last_ns s = true.
+Proof.
+  intros H Hf. destruct (rev_cons_exists s H) as [r [y ->]].
+  unfold last_ns. rewrite rev_unit. unfold nfree in Hf. rewrite forallb_app in Hf.
+  apply andb_true_iff in Hf as [_ Hf]. simpl in Hf. rewrite andb_true_r in Hf. exact Hf.
+Qed.
+
+Definition seg_ok (s : str) : Prop := s <> [] /\ nfree c_slash s = true.
+
+Lemma wf_name_seg_ok D : wf_name D -> Forall seg_ok D.
+Proof. intros H. eapply Forall_impl; [|exact H]. intros s Hs. apply wf_segb_inv in Hs. unfold seg_ok; tauto. Qed.
+
+Lemma last_ns_join L : L <> [] -> Forall seg_ok L -> last_ns (join_with s_slash L) = true.
+Proof.
+  intros Hne HF. destruct (rev_cons_exists L Hne) as [L' [g ->]].
+  apply Forall_app in HF as [_ HF]. inversion HF as [|? ? [Hg1 Hg2] _]; subst.
+  destruct L' as [|a L''].
+  - simpl. apply last_ns_seg; auto.
+  - rewrite join_with_snoc by discriminate.
+    rewrite last_ns_app. 2:{ unfold s_slash; simpl; discriminate. }
+    rewrite last_ns_app by auto. apply last_ns_seg; auto.
+Qed.
+
+Lemma last_ns_render L : L <> [] -> Forall seg_ok L -> last_ns (render L) = true.
+Proof.
+  intros Hne HF. pose proof (last_ns_join L Hne HF) as H.
+  unfold render. change (c_slash :: join_with s_slash L) with ([c_slash] ++ join_with s_slash L).
+  rewrite last_ns_app; auto. apply last_ns_nonnil; auto.
+Qed.
+
+Lemma ends_with_last_ns a : last_ns a = true -> ends_with s_slash a = false.
+Proof.
+  unfold last_ns, ends_with. simpl rev at 1. destruct (rev a) as [|y r]; [discriminate|].
+  intros H. apply negb_true_iff in H. unfold is_slash in H.
+  change (starts_with (rev s_slash) (y :: r)) with (N.eqb c_slash y && true).
+  rewrite N.eqb_sym, H. reflexivity.
+Qed.
+
+Lemma starts_with_slash_hd x r : is_slash x = false -> starts_with s_slash (x :: r) = false.
+Proof.
+  intros H. unfold is_slash in H.
+  change (starts_with s_slash (x :: r)) with (N.eqb c_slash x && true).
+  rewrite N.eqb_sym, H. reflexivity.
+Qed.
+
+Lemma px_join_rel a b : last_ns a = true -> (exists x r, b = x :: r /\ is_slash x = false) ->
+  px_join a b = a ++ s_slash ++ b.
+Proof.
+  intros Ha [x [r [-> Hx]]]. unfold px_join.
+  rewrite starts_with_slash_hd by auto.
+  rewrite ends_with_last_ns by auto.
+  destruct a; [discriminate | reflexivity].
+Qed.
+
+Lemma px_join_root b : starts_with s_slash b = false -> px_join s_slash b = s_slash ++ b.
+Proof. intros H. unfold px_join. rewrite H. reflexivity. Qed.
+
+(* ---- rsplit_at ---- *)
+
+Lemma rsplit_at_app c a b : nfree c b = true -> rsplit_at c (a ++ c :: b) = (a ++ [c], b).
+Proof.
+  intros H. unfold rsplit_at.
+  replace (rev (a ++ c :: b)) with (rev b ++ c :: rev a)
+    by (rewrite rev_app_distr; simpl; rewrite <- app_assoc; reflexivity).
+  assert (Hr : forallb (fun x => negb (N.eqb x c)) (rev b) = true) by (rewrite forallb_rev; exact H).
+  rewrite take_while_app_stop, drop_while_app_stop; auto; try (rewrite N.eqb_refl; reflexivity).
+  simpl. rewrite !rev_involutive. reflexivity.
+Qed.
+
+Lemma rsplit_at_free c s : nfree c s = true -> rsplit_at c s = ([], s).
+Proof.
+  intros H. unfold rsplit_at.
+  assert (Hr : forallb (fun x => negb (N.eqb x c)) (rev s) = true) by (rewrite forallb_rev; exact H).
+  rewrite take_while_all, drop_while_all by auto. simpl. rewrite rev_involutive. reflexivity.
+Qed.
+
+Lemma render_snoc d f :
+  render (d ++ [f]) = match d with [] => [] | _ => render d end ++ c_slash :: f.
+Proof.
+  destruct d as [|s d']; [reflexivity|]. unfold render.
+  rewrite join_with_snoc by discriminate. reflexivity.
+Qed.
+
+Lemma px_split_gen a f : forallb is_slash a = false -> last_ns a = true ->
+  nfree c_slash f = true -> px_split (a ++ c_slash :: f) = (a, f).
+Proof.
+  intros Hns Hl Hf. unfold px_split. rewrite rsplit_at_app by auto.
+  assert (Hall : forallb is_slash (a ++ [c_slash]) = false)
+    by (rewrite forallb_app, Hns; reflexivity).
+  rewrite Hall.
+  assert (Hstrip : rstrip_slash (a ++ [c_slash]) = a).
+  { unfold rstrip_slash. rewrite rev_unit. simpl.
+    unfold last_ns in Hl. destruct (rev a) as [|y r] eqn:E; [discriminate|].
+    simpl. apply negb_true_iff in Hl. rewrite Hl. rewrite <- E, rev_involutive. reflexivity. }
+  rewrite Hstrip. destruct a; [discriminate|]. reflexivity.
+Qed.
+
+Lemma render_not_all_slash D : D <> [] -> Forall seg_ok D -> forallb is_slash (render D) = false.
+Proof.
+  intros Hne HF. destruct D as [|s D']; [congruence|].
+  inversion HF as [|? ? [H1 H2] _]; subst.
+  destruct (seg_hd s H1 H2) as [x [r [-> Hx]]].
+  destruct (join_with_hd s_slash x r D') as [t Ht].
+  change (render ((x :: r) :: D')) with (c_slash :: join_with s_slash ((x :: r) :: D')).
+  rewrite Ht. simpl. rewrite Hx. reflexivity.
+Qed.
+
+Lemma px_split_render d f : wf_name d -> nfree c_slash f = true ->
+  px_split (render (d ++ [f])) = (render d, f).
+Proof.
+  intros Hd Hf. rewrite render_snoc. destruct d as [|s d'].
+  - simpl app. unfold px_split. change (c_slash :: f) with ([] ++ c_slash :: f).
+    rewrite rsplit_at_app by auto. reflexivity.
+  - apply px_split_gen; auto.
+    + apply render_not_all_slash; [discriminate | apply wf_name_seg_ok; auto].
+    + apply last_ns_render; [discriminate | apply wf_name_seg_ok; auto].
+Qed.
+
+Lemma rsplit_render d f : nfree c_slash f = true ->
+  exists h, rsplit_at c_slash (render (d ++ [f])) = (h, f).
+Proof. intros Hf. rewrite render_snoc. rewrite rsplit_at_app by auto. eauto. Qed.
+
+(* ---- first group of statements ---- *)
 
 Lemma baseURI_render d f : wf_name d -> wf_segb f = true ->
   baseURI (render (d ++ [f])) = render d.
-Abort.
+Proof.
+  intros Hd Hf. apply wf_segb_inv in Hf as (_ & Hf & _).
+  unfold baseURI. rewrite px_split_render; auto.
+Qed.
 
 Lemma baseURI_root : baseURI (render []) = render [].
-Abort.
+Proof. reflexivity. Qed.
+
+Lemma filename_render_gen d f : wf_name d -> nfree c_slash f = true ->
+  filename (render (d ++ [f])) = f.
+Proof. intros Hd Hf. unfold filename. rewrite px_split_render; auto. Qed.
 
 Lemma filename_render d f : wf_name d -> wf_segb f = true ->
   filename (render (d ++ [f])) = f.
-Abort.
+Proof. intros Hd Hf. apply wf_segb_inv in Hf as (_ & Hf & _). apply filename_render_gen; auto. Qed.
 
 Lemma membername_render P : membername (render P) = join_with s_slash P.
-Abort.
+Proof. reflexivity. Qed.
+
+Lemma packuri_new_render P : packuri_new (render P) = Ok (render P).
+Proof. reflexivity. Qed.
 
 Lemma rels_uri_render d f : wf_name d -> wf_segb f = true ->
   rels_uri (render (d ++ [f])) = Ok (render (d ++ [s_rels_dir; f ++ s_rels_ext])).
-Abort.
+Proof.
+  intros Hd Hf. unfold rels_uri. rewrite baseURI_render, filename_render by auto.
+  apply wf_segb_inv in Hf as (Hf1 & Hf2 & _).
+  destruct (seg_hd f Hf1 Hf2) as [x [r [-> Hx]]].
+  assert (E1 : px_join (render d) s_rels_dir = render (d ++ [s_rels_dir])).
+  { destruct d as [|s d'].
+    - reflexivity.
+    - rewrite px_join_rel.
+      + rewrite render_snoc. reflexivity.
+      + apply last_ns_render; [discriminate | apply wf_name_seg_ok; auto].
+      + eexists _, _. split; [reflexivity|reflexivity]. }
+  rewrite E1. rewrite px_join_rel.
+  - rewrite <- packuri_new_render. f_equal.
+    replace (d ++ [s_rels_dir; (x :: r) ++ s_rels_ext])
+      with ((d ++ [s_rels_dir]) ++ [(x :: r) ++ s_rels_ext])
+      by (rewrite <- app_assoc; reflexivity).
+    rewrite (render_snoc (d ++ [s_rels_dir])).
+    destruct (d ++ [s_rels_dir]) eqn:E; [destruct d; discriminate|]. reflexivity.
+  - rewrite render_snoc. rewrite last_ns_app by discriminate. reflexivity.
+  - eexists _, _. split; [reflexivity|auto].
+Qed.
 
 Lemma rels_uri_root : rels_uri (render []) = Ok (render [s_rels_dir; s_rels_ext]).
-Abort.
+Proof. reflexivity. Qed.
+
+(* ---- splitext ---- *)
+
+Lemma no_dot_nfree s : no_dot s = nfree c_dot s.
+Proof. reflexivity. Qed.
+
+Lemma no_dot_existsb s : no_dot s = true -> existsb is_dot s = false.
+Proof.
+  induction s as [|x s IH]; simpl; auto. intros H.
+  apply andb_true_iff in H as [H1 H2]. apply negb_true_iff in H1. rewrite H1, IH; auto.
+Qed.
+
+Lemma no_dot_nonnil_existsb s : no_dot s = true -> s <> [] ->
+  existsb (fun c => negb (is_dot c)) s = true.
+Proof.
+  destruct s as [|x s]; [congruence|]. simpl. intros H _.
+  apply andb_true_iff in H as [H1 _]. rewrite H1. reflexivity.
+Qed.
+
+Lemma px_splitext_of p h stem e : rsplit_at c_slash p = (h, stem ++ c_dot :: e) ->
+  existsb (fun c => negb (is_dot c)) stem = true -> no_dot e = true ->
+  px_splitext p = (h ++ stem, c_dot :: e).
+Proof.
+  intros Hr Hs He. unfold px_splitext. rewrite Hr.
+  assert (Hd : existsb is_dot (stem ++ c_dot :: e) = true).
+  { rewrite existsb_app. simpl. apply orb_true_r. }
+  rewrite Hd. rewrite rsplit_at_app by exact He.
+  rewrite removelast_last. rewrite Hs. reflexivity.
+Qed.
+
+Lemma px_splitext_nodot p h t : rsplit_at c_slash p = (h, t) -> no_dot t = true ->
+  px_splitext p = (p, []).
+Proof.
+  intros Hr Ht. unfold px_splitext. rewrite Hr. rewrite no_dot_existsb by auto. reflexivity.
+Qed.
+
+Lemma ext_of p h stem e : rsplit_at c_slash p = (h, stem ++ c_dot :: e) ->
+  existsb (fun c => negb (is_dot c)) stem = true -> no_dot e = true -> ext p = e.
+Proof. intros Hh Hs He. unfold ext. rewrite (px_splitext_of _ _ _ _ Hh Hs He). reflexivity. Qed.
+
+Lemma ext_of_nodot p h t : rsplit_at c_slash p = (h, t) -> no_dot t = true -> ext p = [].
+Proof. intros Hh Hn. unfold ext. rewrite (px_splitext_nodot _ _ _ Hh Hn). reflexivity. Qed.
 
 (** extension: text after the last dot of the file name, when something other than
     dots precedes that dot *)
 Lemma ext_render d stem e : wf_name d -> wf_segb (stem ++ c_dot :: e) = true ->
   existsb (fun c => negb (is_dot c)) stem = true -> no_dot e = true ->
   ext (render (d ++ [stem ++ c_dot :: e])) = e.
-Abort.
+Proof.
+  intros Hd Hf Hs He. apply wf_segb_inv in Hf as (_ & Hf & _).
+  destruct (rsplit_render d _ Hf) as [h Hh].
+  eapply ext_of; eauto.
+Qed.
 
 Lemma ext_none d f : wf_name d -> wf_segb f = true -> no_dot f = true ->
   ext (render (d ++ [f])) = [].
-Abort.
+Proof.
+  intros Hd Hf Hn. apply wf_segb_inv in Hf as (_ & Hf & _).
+  destruct (rsplit_render d _ Hf) as [h Hh].
+  eapply ext_of_nodot; eauto.
+Qed.
+
+(* ---- idx ---- *)
+
+Lemma forallb_impl {A} (f g : A -> bool) l :
+  (forall x, f x = true -> g x = true) -> forallb f l = true -> forallb g l = true.
+Proof.
+  intros Hi. induction l as [|x l IH]; simpl; auto. intros H.
+  apply andb_true_iff in H as [H1 H2]. rewrite Hi, IH; auto.
+Qed.
+
+Lemma alpha_not_slash c : is_alpha_ascii c = true -> not_slash c = true.
+Proof.
+  unfold is_alpha_ascii, not_slash, is_slash, c_slash. intros H.
+  apply negb_true_iff. apply N.eqb_neq. intros ->. discriminate.
+Qed.
+
+Lemma digit_not_slash c : is_digit c = true -> not_slash c = true.
+Proof.
+  unfold is_digit, not_slash, is_slash, c_slash. intros H.
+  apply negb_true_iff. apply N.eqb_neq. intros ->. discriminate.
+Qed.
+
+Lemma digit_not_alpha c : is_digit c = true -> is_alpha_ascii c = false.
+Proof.
+  unfold is_digit, is_alpha_ascii. intros H.
+  apply andb_true_iff in H as [H1 H2]. apply N.leb_le in H1, H2.
+  apply orb_false_iff; split; apply andb_false_iff; [left | left]; apply N.leb_gt; lia.
+Qed.
+
+Lemma idx_of p F : filename p = F -> F <> [] ->
+  idx p =
+  match take_while is_alpha_ascii (fst (px_splitext F)) with
+  | [] => None
+  | _ => match take_while is_digit (drop_while is_alpha_ascii (fst (px_splitext F))) with
+         | [] => None
+         | ds => Some (dec_value ds)
+         end
+  end.
+Proof.
+  intros HF Hne. unfold idx. rewrite HF. destruct F; [congruence | reflexivity].
+Qed.
+
+Lemma px_splitext_name stem e :
+  forallb not_slash stem = true -> forallb not_slash e = true ->
+  no_dot stem = true -> stem <> [] -> no_dot e = true ->
+  fst (px_splitext (stem ++ c_dot :: e)) = stem.
+Proof.
+  intros Hs1 He1 Hs2 Hs3 He2.
+  assert (Hfree : nfree c_slash (stem ++ c_dot :: e) = true).
+  { unfold nfree. change (fun x => negb (N.eqb x c_slash)) with not_slash.
+    rewrite forallb_app. simpl. rewrite Hs1, He1. reflexivity. }
+  rewrite (px_splitext_of _ [] stem e); auto.
+  - apply rsplit_at_free; auto.
+  - apply no_dot_nonnil_existsb; auto.
+Qed.
 
 (** numeric index: stem = letters then digits (then anything that is not a digit) *)
 Lemma idx_some d letters digits rest e : wf_name d ->
@@ -63,7 +358,32 @@ Lemma idx_some d letters digits rest e : wf_name d ->
   no_dot (letters ++ digits ++ rest) = true -> forallb not_slash rest = true ->
   no_dot e = true -> forallb not_slash e = true ->
   idx (render (d ++ [letters ++ digits ++ rest ++ c_dot :: e])) = Some (dec_value digits).
-Abort.
+Proof.
+  intros Hd Hl1 Hl2 Hd1 Hd2 Hr Hnd Hr2 He1 He2.
+  set (stem := letters ++ digits ++ rest).
+  assert (EF : letters ++ digits ++ rest ++ c_dot :: e = stem ++ c_dot :: e)
+    by (unfold stem; rewrite <- !app_assoc; reflexivity).
+  rewrite EF.
+  assert (Hstem_ns : forallb not_slash stem = true).
+  { unfold stem. rewrite !forallb_app.
+    rewrite (forallb_impl _ _ _ alpha_not_slash Hl2), (forallb_impl _ _ _ digit_not_slash Hd2), Hr2.
+    reflexivity. }
+  assert (Hstem_ne : stem <> []) by (unfold stem; destruct letters; [congruence | discriminate]).
+  assert (Hfree : nfree c_slash (stem ++ c_dot :: e) = true).
+  { unfold nfree. change (fun x => negb (N.eqb x c_slash)) with not_slash.
+    rewrite forallb_app. simpl. rewrite Hstem_ns, He2. reflexivity. }
+  rewrite (idx_of _ (stem ++ c_dot :: e)).
+  2:{ apply filename_render_gen; auto. }
+  2:{ destruct stem; [congruence | discriminate]. }
+  rewrite px_splitext_name by auto.
+  assert (Hhd : match digits ++ rest with [] => true | x :: _ => negb (is_alpha_ascii x) end = true).
+  { destruct digits as [|dg ds]; [congruence|]. simpl in Hd2 |- *.
+    apply andb_true_iff in Hd2 as [Hd2 _]. rewrite digit_not_alpha; auto. }
+  unfold stem.
+  rewrite take_while_app_hd, drop_while_app_hd by auto.
+  rewrite take_while_app_hd by auto.
+  destruct letters; [congruence|]. destruct digits; [congruence|]. reflexivity.
+Qed.
 
 Lemma idx_none d letters rest e : wf_name d ->
   forallb is_alpha_ascii letters = true ->
@@ -72,26 +392,394 @@ Lemma idx_none d letters rest e : wf_name d ->
   letters ++ rest <> [] ->
   no_dot e = true -> forallb not_slash e = true ->
   idx (render (d ++ [letters ++ rest ++ c_dot :: e])) = None.
-Abort.
+Proof.
+  intros Hd Hl2 Hr Hnd Hr2 Hne He1 He2.
+  set (stem := letters ++ rest) in *.
+  assert (EF : letters ++ rest ++ c_dot :: e = stem ++ c_dot :: e)
+    by (unfold stem; rewrite <- !app_assoc; reflexivity).
+  rewrite EF.
+  assert (Hstem_ns : forallb not_slash stem = true).
+  { unfold stem. rewrite !forallb_app.
+    rewrite (forallb_impl _ _ _ alpha_not_slash Hl2), Hr2. reflexivity. }
+  assert (Hfree : nfree c_slash (stem ++ c_dot :: e) = true).
+  { unfold nfree. change (fun x => negb (N.eqb x c_slash)) with not_slash.
+    rewrite forallb_app. simpl. rewrite Hstem_ns, He2. reflexivity. }
+  rewrite (idx_of _ (stem ++ c_dot :: e)).
+  2:{ apply filename_render_gen; auto. }
+  2:{ destruct stem; [congruence | discriminate]. }
+  rewrite px_splitext_name by auto.
+  assert (Hr_a : match rest with [] => true | x :: _ => negb (is_alpha_ascii x) end = true).
+  { destruct rest; auto. apply andb_true_iff in Hr; tauto. }
+  assert (Hr_d : match rest with [] => true | x :: _ => negb (is_digit x) end = true).
+  { destruct rest; auto. apply andb_true_iff in Hr; tauto. }
+  unfold stem.
+  rewrite take_while_app_hd, drop_while_app_hd by auto.
+  rewrite (take_while_nil_hd _ _ Hr_d).
+  destruct letters; reflexivity.
+Qed.
 
 Lemma idx_root : idx (render []) = None.
-Abort.
+Proof. reflexivity. Qed.
 
 Lemma reject_not_rooted s : (forall r, s <> c_slash :: r) ->
   packuri_new s = Err IndexErr \/ packuri_new s = Err ValueErr.
-Abort.
+Proof.
+  intros H. destruct s as [|c r]; [left; reflexivity|]. right.
+  unfold packuri_new, is_slash. destruct (N.eqb_spec c c_slash) as [->|Hn]; [|reflexivity].
+  exfalso. eapply H; reflexivity.
+Qed.
+
+(* ---- normpath ---- *)
+
+Lemma split_on_render L : L <> [] -> Forall (fun s => nfree c_slash s = true) L ->
+  split_on c_slash (render L) = [] :: L.
+Proof.
+  intros Hne HF. unfold render.
+  change (c_slash :: join_with s_slash L) with ([] ++ c_slash :: join_with s_slash L).
+  rewrite split_on_app by reflexivity. unfold s_slash. rewrite split_join; auto.
+Qed.
+
+Lemma norm_step_nil init acc : norm_step init acc [] = acc.
+Proof. reflexivity. Qed.
+
+Lemma norm_step_dot init acc : norm_step init acc s_dot = acc.
+Proof. reflexivity. Qed.
+
+Lemma norm_step_dotdot init acc : norm_step init acc s_dotdot =
+  match rev acc with
+  | [] => if init then acc else acc ++ [s_dotdot]
+  | lastc :: _ => if str_eqb lastc s_dotdot then acc ++ [s_dotdot] else removelast acc
+  end.
+Proof. reflexivity. Qed.
+
+Lemma norm_step_push init acc s : s <> [] -> str_eqb s s_dot = false ->
+  str_eqb s s_dotdot = false -> norm_step init acc s = acc ++ [s].
+Proof.
+  intros H0 H1 H2. unfold norm_step. destruct s; [congruence|]. rewrite H1, H2. reflexivity.
+Qed.
+
+Lemma norm_fold_wf init L acc : wf_name L -> fold_left (norm_step init) L acc = acc ++ L.
+Proof.
+  revert acc. induction L as [|s L IH]; intros acc H; simpl.
+  - rewrite app_nil_r; reflexivity.
+  - inversion H as [|? ? Hs HL]; subst. apply wf_segb_inv in Hs as (H0 & _ & H1 & H2).
+    rewrite IH by auto. rewrite norm_step_push by auto. rewrite <- app_assoc. reflexivity.
+Qed.
+
+Lemma norm_step_up acc b : str_eqb b s_dotdot = false ->
+  norm_step true (acc ++ [b]) s_dotdot = acc.
+Proof.
+  intros H. rewrite norm_step_dotdot. rewrite rev_unit. rewrite H. apply removelast_last.
+Qed.
+
+Lemma norm_fold_ups A B : Forall (fun b => str_eqb b s_dotdot = false) B ->
+  fold_left (norm_step true) (repeat s_dotdot (length B)) (A ++ B) = A.
+Proof.
+  induction B as [|b B IH] using rev_ind; intros H.
+  - simpl. apply app_nil_r.
+  - apply Forall_app in H as [HB Hb]. inversion Hb; subst.
+    rewrite app_length. simpl length. rewrite Nat.add_1_r. simpl.
+    rewrite app_assoc. rewrite norm_step_up by auto. auto.
+Qed.
+
+Lemma normpath_render L : L <> [] -> Forall (fun s => nfree c_slash s = true) L ->
+  hd [] L <> [] ->
+  px_normpath (render L) = render (fold_left (norm_step true) L []).
+Proof.
+  intros Hne HF Hhd.
+  pose proof (split_on_render L Hne HF) as Hsplit.
+  assert (Hsw1 : starts_with s_slash (render L) = true) by reflexivity.
+  assert (Hsw2 : starts_with [c_slash; c_slash] (render L) = false).
+  { destruct L as [|s L']; [congruence|]. simpl in Hhd. inversion HF; subst.
+    destruct (seg_hd s Hhd H1) as [x [r [-> Hx]]].
+    destruct (join_with_hd s_slash x r L') as [t Ht].
+    change (render ((x :: r) :: L')) with (c_slash :: join_with s_slash ((x :: r) :: L')).
+    rewrite Ht.
+    change (starts_with [c_slash; c_slash] (c_slash :: x :: t))
+      with (N.eqb c_slash c_slash && (N.eqb c_slash x && true)).
+    unfold is_slash in Hx. rewrite (N.eqb_sym c_slash x), Hx. reflexivity. }
+  remember (render L) as p eqn:Hp. destruct p as [|c t]; [discriminate|].
+  unfold px_normpath. rewrite Hsw1, Hsplit, Hsw2. simpl. reflexivity.
+Qed.
+
+Lemma px_abspath_render L : px_abspath (render L) = Ok (px_normpath (render L)).
+Proof. reflexivity. Qed.
+
+Lemma normpath_render_wf D : wf_name D -> px_normpath (render D) = render D.
+Proof.
+  intros H. destruct D as [|s D']; [reflexivity|].
+  rewrite normpath_render.
+  - rewrite norm_fold_wf by auto. reflexivity.
+  - discriminate.
+  - apply wf_name_nfree; auto.
+  - simpl. inversion H; subst. apply wf_segb_inv in H2. tauto.
+Qed.
+
+Lemma filter_all {A} (f : A -> bool) l : Forall (fun x => f x = true) l -> filter f l = l.
+Proof. induction 1; simpl; auto. rewrite H. congruence. Qed.
+
+Lemma nonempty_comps_render D : wf_name D -> nonempty_comps (render D) = D.
+Proof.
+  intros H. destruct D as [|s D']; [reflexivity|].
+  unfold nonempty_comps. rewrite split_on_render; [|discriminate|apply wf_name_nfree; auto].
+  match goal with |- filter ?f ([] :: ?l) = _ => change (filter f l = l) end.
+  apply filter_all.
+  eapply Forall_impl; [|exact H]. intros a Ha. apply wf_segb_inv in Ha as (Ha & _).
+  destruct a; [congruence | reflexivity].
+Qed.
+
+(* ---- common prefix ---- *)
+
+Lemma cpl_firstn a b :
+  firstn (common_prefix_len a b) a = firstn (common_prefix_len a b) b.
+Proof.
+  revert b. induction a as [|x a IH]; intros [|y b]; simpl; auto.
+  destruct (str_eqb_spec x y) as [->|Hn]; simpl; auto. rewrite IH. reflexivity.
+Qed.
+
+Lemma cpl_le a b :
+  common_prefix_len a b <= length a /\ common_prefix_len a b <= length b.
+Proof.
+  revert b. induction a as [|x a IH]; intros [|y b]; simpl; try lia.
+  destruct (str_eqb x y); simpl; try lia. specialize (IH b). lia.
+Qed.
+
+(* ---- joins ---- *)
+
+Lemma fold_px_join ps a : last_ns a = true -> Forall seg_ok ps ->
+  fold_left px_join ps a = join_with s_slash (a :: ps).
+Proof.
+  revert a. induction ps as [|p ps IH]; intros a Ha HF; [reflexivity|].
+  inversion HF as [|? ? [Hp1 Hp2] HF']; subst. simpl fold_left.
+  rewrite px_join_rel; auto.
+  2:{ destruct (seg_hd p Hp1 Hp2) as [x [r [-> Hx]]]. eauto. }
+  rewrite IH; auto.
+  2:{ rewrite last_ns_app by (destruct p; [congruence | discriminate]).
+      rewrite last_ns_app by auto. apply last_ns_seg; auto. }
+  destruct ps as [|q ps'].
+  - reflexivity.
+  - rewrite (join_with_cons _ a) by discriminate.
+    rewrite (join_with_cons _ p) by discriminate.
+    rewrite (join_with_cons _ (a ++ s_slash ++ p)) by discriminate.
+    rewrite <- !app_assoc. reflexivity.
+Qed.
+
+Lemma px_join_all_join rel : Forall seg_ok rel -> px_join_all rel = join_with s_slash rel.
+Proof.
+  intros HF. destruct rel as [|p ps]; [reflexivity|]. inversion HF as [|? ? [H1 H2] HF']; subst.
+  unfold px_join_all. apply fold_px_join; auto. apply last_ns_seg; auto.
+Qed.
+
+Lemma bind_ok {A B} (a : A) (f : A -> res B) : bind (Ok a) f = f a.
+Proof. reflexivity. Qed.
+
+(* ---- from_rel_ref on a joined list of pieces ---- *)
+
+Lemma px_join_render D rel : wf_name D -> rel <> [] ->
+  Forall (fun s => nfree c_slash s = true) rel -> hd [] rel <> [] ->
+  px_join (render D) (join_with s_slash rel) = render (D ++ rel).
+Proof.
+  intros HD Hne HF Hhd.
+  assert (Hj : exists x r, join_with s_slash rel = x :: r /\ is_slash x = false).
+  { destruct rel as [|s rel']; [congruence|]. simpl in Hhd. inversion HF; subst.
+    destruct (seg_hd s Hhd H1) as [x [r [-> Hx]]].
+    destruct (join_with_hd s_slash x r rel') as [t Ht]. exists x, t. split; [exact Ht | exact Hx]. }
+  destruct D as [|s D'].
+  - change (render []) with s_slash. rewrite px_join_root.
+    + reflexivity.
+    + destruct Hj as [x [r [-> Hx]]]. apply starts_with_slash_hd; auto.
+  - rewrite px_join_rel; auto.
+    + unfold render. rewrite (join_with_app _ (s :: D') rel) by (auto; discriminate).
+      reflexivity.
+    + apply last_ns_render; [discriminate | apply wf_name_seg_ok; auto].
+Qed.
+
+Lemma from_rel_ref_segs D rel : wf_name D -> rel <> [] ->
+  Forall (fun s => nfree c_slash s = true) rel -> hd [] rel <> [] ->
+  from_rel_ref (render D) (join_with s_slash rel)
+  = Ok (render (fold_left (norm_step true) (D ++ rel) [])).
+Proof.
+  intros HD Hne HF Hhd. unfold from_rel_ref.
+  rewrite px_join_render by auto. rewrite px_abspath_render. rewrite bind_ok.
+  rewrite normpath_render.
+  - apply packuri_new_render.
+  - destruct D; [simpl; auto | discriminate].
+  - apply Forall_app; split; auto. apply wf_name_nfree; auto.
+  - destruct D as [|s D']; [exact Hhd|]. simpl. inversion HD; subst.
+    apply wf_segb_inv in H1. tauto.
+Qed.
+
+(* ---- round trip ---- *)
+
+Lemma wf_not_dotdot L : wf_name L -> Forall (fun b => str_eqb b s_dotdot = false) L.
+Proof. intros H. eapply Forall_impl; [|exact H]. intros a Ha. apply wf_segb_inv in Ha; tauto. Qed.
+
+Lemma Forall_firstn {A} (P : A -> Prop) n l : Forall P l -> Forall P (firstn n l).
+Proof. revert l; induction n; intros l H; simpl; auto. destruct H; auto. Qed.
+
+Lemma Forall_skipn {A} (P : A -> Prop) n l : Forall P l -> Forall P (skipn n l).
+Proof. revert l; induction n; intros l H; simpl; auto. destruct H; auto. Qed.
+
+Lemma norm_fold_updown D i tail : wf_name D ->
+  fold_left (norm_step true) (D ++ repeat s_dotdot (length D - i) ++ tail) []
+  = fold_left (norm_step true) tail (firstn i D).
+Proof.
+  intros HD. rewrite !fold_left_app. rewrite (norm_fold_wf true D) by auto. simpl app.
+  assert (Hsk : Forall (fun b => str_eqb b s_dotdot = false) (skipn i D))
+    by (apply Forall_skipn, wf_not_dotdot; auto).
+  rewrite <- (skipn_length i D).
+  rewrite <- (firstn_skipn i D) at 2.
+  rewrite norm_fold_ups by auto. reflexivity.
+Qed.
+
+Lemma render_ne_root D : wf_name D -> D <> [] -> str_eqb (render D) s_slash = false.
+Proof.
+  intros HD Hne. destruct D as [|s D']; [congruence|].
+  inversion HD; subst. apply wf_segb_inv in H1 as (H1 & H1' & _).
+  destruct (seg_hd s H1 H1') as [x [r [-> Hx]]].
+  destruct (join_with_hd s_slash x r D') as [t Ht].
+  change (render ((x :: r) :: D')) with (c_slash :: join_with s_slash ((x :: r) :: D')).
+  rewrite Ht. reflexivity.
+Qed.
+
+Lemma roundtrip_dir_ne D Q : D <> [] -> wf_name D -> wf_name Q ->
+  bind (relative_ref (render Q) (render D)) (from_rel_ref (render D)) = Ok (render Q).
+Proof.
+  intros Hne HD HQ.
+  unfold relative_ref. rewrite render_ne_root by auto.
+  unfold px_relpath.
+  change (render Q) with (c_slash :: join_with s_slash Q) at 1. cbv iota.
+  rewrite !px_abspath_render. rewrite !bind_ok.
+  rewrite !normpath_render_wf by auto. rewrite !nonempty_comps_render by auto.
+  set (i := common_prefix_len D Q).
+  pose proof (cpl_firstn D Q) as Hfi. pose proof (cpl_le D Q) as [Hle1 Hle2].
+  fold i in Hfi, Hle1, Hle2.
+  destruct (repeat s_dotdot (length D - i) ++ skipn i Q) as [|r0 rel'] eqn:Hrel.
+  - (* Q = D *)
+    apply app_eq_nil in Hrel as [Hr1 Hr2].
+    assert (Hi1 : length D - i = 0) by (destruct (length D - i); [reflexivity | discriminate]).
+    assert (Hi2 : length Q <= i).
+    { apply (f_equal (@length _)) in Hr2. rewrite skipn_length in Hr2. simpl in Hr2. lia. }
+    assert (EQ : D = Q).
+    { rewrite <- (firstn_all D), <- (firstn_all Q).
+      replace (length D) with i by lia. replace (length Q) with i by lia. exact Hfi. }
+    rewrite bind_ok. change s_dot with (join_with s_slash [s_dot]).
+    rewrite from_rel_ref_segs; [| auto | discriminate | repeat constructor | discriminate].
+    rewrite fold_left_app, (norm_fold_wf true D) by auto. simpl. rewrite EQ. reflexivity.
+  - rewrite <- Hrel.
+    assert (Hne2 : repeat s_dotdot (length D - i) ++ skipn i Q <> []) by (rewrite Hrel; discriminate).
+    clear Hrel r0 rel'.
+    assert (Hok : Forall seg_ok (repeat s_dotdot (length D - i) ++ skipn i Q)).
+    { apply Forall_app; split.
+      - apply Forall_forall. intros x Hx. apply repeat_spec in Hx. subst.
+        split; [discriminate | reflexivity].
+      - apply Forall_skipn, wf_name_seg_ok; auto. }
+    rewrite bind_ok. rewrite px_join_all_join by auto.
+    rewrite from_rel_ref_segs; auto.
+    + rewrite norm_fold_updown by auto.
+      rewrite norm_fold_wf by (apply Forall_skipn; auto).
+      rewrite Hfi, firstn_skipn. reflexivity.
+    + eapply Forall_impl; [|exact Hok]. intros a [_ Ha]; exact Ha.
+    + destruct (repeat s_dotdot (length D - i) ++ skipn i Q) as [|a l]; [congruence|].
+      inversion Hok as [|? ? [Ha _] _]; subst. exact Ha.
+Qed.
 
 (** The round trip, for a directory D (possibly the root) and any part name Q
     (possibly the pseudo-name). *)
 Lemma roundtrip_dir D Q : wf_name D -> wf_name Q ->
   bind (relative_ref (render Q) (render D)) (from_rel_ref (render D)) = Ok (render Q).
-Abort.
+Proof.
+  intros HD HQ. destruct D as [|s D'].
+  - (* base is the root *)
+    change (relative_ref (render Q) (render [])) with (Ok (join_with s_slash Q)).
+    rewrite bind_ok. destruct Q as [|q Q'].
+    + reflexivity.
+    + rewrite from_rel_ref_segs; auto.
+      * simpl app. rewrite norm_fold_wf by auto. reflexivity.
+      * discriminate.
+      * apply wf_name_nfree; auto.
+      * simpl. inversion HQ; subst. apply wf_segb_inv in H1; tauto.
+  - apply roundtrip_dir_ne; auto. discriminate.
+Qed.
 
 Lemma roundtrip P Q : wf_name P -> wf_name Q ->
   bind (relative_ref (render Q) (baseURI (render P))) (from_rel_ref (baseURI (render P)))
   = Ok (render Q).
-Abort.
+Proof.
+  intros HP HQ. destruct P as [|p P'] using rev_ind.
+  - rewrite baseURI_root. apply roundtrip_dir; auto.
+  - apply Forall_app in HP as [HP Hp]. inversion Hp; subst.
+    rewrite baseURI_render by auto. apply roundtrip_dir; auto.
+Qed.
+
+(* ---- RFC 3986 ---- *)
+
+Lemma Forall_removelast {A} (P : A -> Prop) l : Forall P l -> Forall P (removelast l).
+Proof. induction 1 as [|x l Hx Hl IH]; simpl; auto. destruct l; auto. Qed.
+
+Lemma norm_rfc_step acc s : s <> [] ->
+  Forall (fun b => str_eqb b s_dotdot = false) acc ->
+  norm_step true acc s = rfc_step acc s.
+Proof.
+  intros Hs Hacc. unfold rfc_step.
+  destruct (str_eqb_spec s s_dot) as [->|Hd]; [apply norm_step_dot|].
+  destruct (str_eqb_spec s s_dotdot) as [->|Hdd].
+  - rewrite norm_step_dotdot. destruct (rev acc) as [|l r] eqn:E.
+    + apply (f_equal (@rev _)) in E. rewrite rev_involutive in E. simpl in E. subst. reflexivity.
+    + assert (Hin : In l acc) by (apply in_rev; rewrite E; left; reflexivity).
+      rewrite Forall_forall in Hacc. rewrite (Hacc l Hin). reflexivity.
+  - apply norm_step_push; auto.
+    + destruct (str_eqb_spec s s_dot); congruence.
+    + destruct (str_eqb_spec s s_dotdot); congruence.
+Qed.
+
+Lemma rfc_step_nodd acc s : Forall (fun b => str_eqb b s_dotdot = false) acc ->
+  Forall (fun b => str_eqb b s_dotdot = false) (rfc_step acc s).
+Proof.
+  intros H. unfold rfc_step. destruct (str_eqb s s_dot); auto.
+  destruct (str_eqb s s_dotdot) eqn:E.
+  - apply Forall_removelast; auto.
+  - apply Forall_app; split; auto.
+Qed.
+
+Lemma norm_rfc_fold L acc : Forall (fun s => s <> []) L ->
+  Forall (fun b => str_eqb b s_dotdot = false) acc ->
+  fold_left (norm_step true) L acc = fold_left rfc_step L acc.
+Proof.
+  revert acc. induction L as [|s L IH]; intros acc HL Hacc; simpl; auto.
+  inversion HL; subst. rewrite norm_rfc_step by auto. apply IH; auto. apply rfc_step_nodd; auto.
+Qed.
+
+Lemma forallb_nonempty (L : list str) :
+  forallb (fun p => match p with [] => false | _ => true end) L = true ->
+  Forall (fun s => s <> []) L.
+Proof.
+  intros H. apply forallb_true_iff in H. eapply Forall_impl; [|exact H].
+  intros a Ha ->. discriminate.
+Qed.
 
 Lemma rfc3986 D ref : wf_name D -> ref_ok ref = true ->
   from_rel_ref (render D) ref = Ok (render (rfc_resolve_segs D ref)).
-Abort.
+Proof.
+  intros HD Hok. unfold ref_ok in Hok. unfold rfc_resolve_segs.
+  pose proof (join_split c_slash ref) as Hj. pose proof (split_on_nfree c_slash ref) as Hfree.
+  destruct (split_on c_slash ref) as [|first rest] eqn:Hsp; [discriminate|].
+  destruct first as [|x f'].
+  - (* root-absolute reference *)
+    destruct rest as [|r1 rest']; [discriminate|].
+    apply andb_true_iff in Hok as [Hok _]. apply andb_true_iff in Hok as [Hok _].
+    apply forallb_nonempty in Hok.
+    assert (Href : ref = render (r1 :: rest')) by (rewrite <- Hj; reflexivity).
+    assert (Hpj : px_join (render D) ref = ref) by (rewrite Href; reflexivity).
+    unfold from_rel_ref. rewrite Hpj, Href, px_abspath_render, bind_ok.
+    inversion Hfree; subst. inversion Hok; subst.
+    rewrite normpath_render; auto; [|discriminate].
+    rewrite packuri_new_render. f_equal. f_equal. apply norm_rfc_fold; auto.
+  - (* merge with the base directory *)
+    apply andb_true_iff in Hok as [Hok _]. apply andb_true_iff in Hok as [Hok _].
+    apply forallb_nonempty in Hok.
+    rewrite <- Hj. change [c_slash] with s_slash.
+    rewrite from_rel_ref_segs; auto; try discriminate.
+    f_equal. f_equal. apply norm_rfc_fold; auto.
+    apply Forall_app; split; auto. apply wf_name_nonempty; auto.
+Qed.
